@@ -439,6 +439,22 @@ def c02_oracle(case, r):
     for key in failing:
         if key not in results:
             hits.append(("failure-not-reported", "a failure happened in %s %s but the report has no such result" % key))
+    # the verdict the runner acts upon (the result of the task: what dependents and --stop-on-failure see) is the verdict that is
+    # reported: Success <-> passed (or disabled), TaskFailure <-> failed, skipped <-> skipped
+    loc_of_task = {"TestTask": "test", "SuiteInitializationTask": "suite_setup", "TestSessionSetupTask": "session_setup"}
+    for a in r.get("trace") or []:
+        if a[1] != "finish" or a[2][0] not in loc_of_task:
+            continue
+        key = (loc_of_task[a[2][0]], a[2][1])
+        res = results.get(key)
+        if res is None:
+            continue
+        tr = a[3][0]
+        # (a disabled test is reported disabled whatever happens to its task: run and skip alike)
+        want = {"passed": "success", "failed": "failure", "skipped": "skipped"}.get(res["status"])
+        if want is not None and tr in ("success", "failure", "skipped") and tr != want:
+            hits.append(("runner-verdict-differs-from-report", "%s %s is reported %s but its task ended with %s: what depends on it sees another verdict" % (
+                key[0], key[1], res["status"], tr)))
     # the three notions of success agree
     hits += _success_flags(oc, rep, results)
     # session failures = results that failed or were skipped
